@@ -45,6 +45,8 @@ extern unsigned long ALLOC_MAX;      /* allocator_traits::max_size () */
 #define NUMERIC_MAX_u  UINT_MAX
 #define NUMERIC_MAX_i  INT_MAX
 #define NUMERIC_MAX_uc UCHAR_MAX
+#define NUMERIC_MAX_sc SCHAR_MAX
+#define NUMERIC_MAX_s  SHRT_MAX
 #define NUMERIC_MAX_us USHRT_MAX
 /* get_max_size () as the property states it: min (allocator max, difference_type max) */
 #define MAXSZ ((ALLOC_MAX < (unsigned long) DIFF_T_MAX_CFG) ? ALLOC_MAX : (unsigned long) DIFF_T_MAX_CFG)
